@@ -7,8 +7,8 @@ CONSTANTS
   Degs <- DegsQ
   MaxNpts = 4
   Acts = {"CvKnotInsert", "CvDegreeIncrease", "CvClean"}
-  PtKinds = {"gen"}
-  WtKinds = {"none"}
+  PtKinds = {"gen", "homlin"}
+  WtKinds = {"none", "gen"}
   ExtraNodes <- Extra0
   NodeSize = 1
   Scenario = "history"
